@@ -499,7 +499,7 @@ def ref_split_iter(model):
 
 def ref_py_int(txt):
     t = _strip(txt, _PS)
-    if re.fullmatch(r'[+-]?[0-9]+(_[0-9]+)*', t):
+    if re.fullmatch(r'[+-]?[0-9]+(_[0-9]+)*', t) and sum(ch in _DIG for ch in t) <= 4300:    # sys.get_int_max_str_digits()
         return int(t)
     raise _PErr('ParserError')
 
